@@ -51,6 +51,7 @@ func ReplayTape(seed uint64, streams map[string][]int) *Tape {
 	return t
 }
 
+//go:norace
 func splitmix(x *uint64) uint64 {
 	*x += 0x9e3779b97f4a7c15
 	z := *x
@@ -68,6 +69,7 @@ func Mix(seed uint64, s string, i uint64) uint64 {
 	return splitmix(&x)
 }
 
+//go:norace
 func (t *Tape) stream(label string) *stream {
 	s := t.streams[label]
 	if s == nil {
@@ -111,6 +113,7 @@ func (t *Tape) Preset(label string, vals ...int) {
 }
 
 // Draw returns a value in [0,n). n<=1 returns 0 without consuming anything.
+//go:norace
 func (t *Tape) Draw(label string, n int) int {
 	if n <= 1 {
 		return 0
@@ -145,6 +148,7 @@ func (t *Tape) Draw(label string, n int) int {
 }
 
 // Chance returns true with probability num/den (recorded as 0/1; default false).
+//go:norace
 func (t *Tape) Chance(label string, num, den int) bool {
 	if num <= 0 {
 		return false
@@ -170,6 +174,7 @@ func (t *Tape) Chance(label string, num, den int) bool {
 }
 
 // Bytes fills b from the stream "bytes:"+label.
+//go:norace
 func (t *Tape) Bytes(label string, b []byte) {
 	for i := range b {
 		b[i] = byte(t.Draw("b:"+label, 256))
